@@ -327,11 +327,32 @@ def check(ctx, rep, rule):
                 n = callee_name(t)
                 if any(n.endswith(s) for s in STD_ITER_NEXT) and not n.startswith('<lexer::'):
                     removed.add(b)
+                if n == "lexer::Tokenizer::<'a>::skip_while" and len(t['args']) == 2:
+                    # a scan started on a non-empty literal prefix whose first character the predicate accepts consumes it
+                    for f in facts_at(fn, b):
+                        if f[0] == 'callbool' and f[1][1].endswith('::starts_with') and f[2] is True and 'offset' in str(f[1][2][0]) and len(f[1][2]) == 2:
+                            import re as _re
+                            m_ = _re.search(r'"(.+)"', str(f[1][2][1]))
+                            d_ = fn.def_rvalue(t['args'][1])
+                            if m_ and d_ and d_[0] == 'assign' and d_[3].get('closure'):
+                                from rules import c08 as _c08
+                                tb_ = _c08.closure_table(F, d_[3]['closure'], [m_.group(1)[0]])
+                                if tb_ and all(v_[0] == 1 for v_ in tb_.values()):
+                                    removed.add(b)
                 if n == "lexer::Tokenizer::<'a>::bump":
                     # progress when the tokenizer is established not to be at the end
                     for f in facts_at(fn, b):
                         if f[0] == 'callbool' and f[1][1].endswith('is_eof') and f[2] is False:
                             removed.add(b)
+                        # ... or the rest of the input starts with something: `input[offset()..].starts_with(..)` held
+                        if f[0] == 'callbool' and f[1][1].endswith('::starts_with') and f[2] is True and 'offset' in str(f[1][2][0]):
+                            removed.add(b)
+                        # ... or a character is known to be there: peek() matched Some(..) since the last bump
+                        if f[0] == 'variant' and 'core::option::Option' in str(f[2]) and f[3] == [1] and "Tokenizer::<'a>::peek" in str(f[1]):
+                            d_ = f[5]
+                            others = [bb for bb, tt in fn.calls() if callee_name(tt) == "lexer::Tokenizer::<'a>::bump" and bb != b]
+                            if not any(ob in fn.reachable(f[4], stop={d_}) and b in fn.reachable(ob, stop={d_}) for ob in others):
+                                removed.add(b)
             removed |= counted_progress(fn, header, body)
             removed |= shrinking_progress(F, fn, header, body)
             cyc = cycle_without(fn, header, body, removed)
